@@ -59,7 +59,8 @@ def generate(seed, tier="quick"):
         if op is not None and dw.dry_apply(op) == "accept":
             ops.append(op)
     n = dw.ref.n
-    pool = [("IonotropicSynapse", None), ("TestSynapse", None), ("TanhRateSynapse", None), ("IonotropicSynapse", "IonoB"), ("TestSynapse", "TestB")]
+    pool = [("IonotropicSynapse", None), ("TestSynapse", None), ("TanhRateSynapse", None), ("IonotropicSynapse", "IonoB"), ("TestSynapse", "TestB"),
+            ("IonotropicSynapse", "exc_syn"), ("TanhRateSynapse", "rate_fast_b")]  # names with underscores: keys are "<name>_<param>"
     pool = o.sample(pool, o.randint(1, 4))
     tasks = []
     hot = o.randrange(n)  # fan-in target
